@@ -175,7 +175,10 @@ def concrete_transform(tkey, diff, mid):
 GLYPH_OPS = ["comp", "d2x2:0", "d2x2:1", "d2x2:S", "nest", "mixed", "dflip"]
 # "comps1st": same layer as "comps" but the sparse source is listed before the default master
 # "comps+nd": the "comps" layer additionally has its own '.notdef' glyph
-SPARSE_OPS = ["sparse:bases", "sparse:comps", "sparse:mix", "sparse:comps1st", "sparse:comps+nd"]
+SPARSE_OPS = ["sparse:bases", "sparse:comps", "sparse:mix", "sparse:comps1st", "sparse:comps+nd",
+              # "+ufo": the sparse master is a UFO of its own (a full, non-default source that simply lacks
+              # most glyphs) instead of a layer of the default master's UFO
+              "sparse:comps+nd+ufo"]
 SKIP_OPS = ["skip:base", "skip:comp"]
 FILTER_OPS = ["filt:dtc:0", "filt:dtc:1", "filt:dtc:all", "filt:flat:0", "filt:flat:all"]
 # depth-3 histories that are part of the quick tier as start states: a pre-filter that rewires
@@ -279,9 +282,9 @@ def skip_list(st):
 
 def sparse_names(st):
     """Which glyphs the sparse layer contains."""
-    v = st["sparse"].replace("1st", "").replace("+nd", "")
+    v = st["sparse"].replace("1st", "").replace("+ufo", "").replace("+nd", "")
     g = st["glyphs"]
-    out = [".notdef"] if st["sparse"].endswith("+nd") else []
+    out = [".notdef"] if "+nd" in st["sparse"] else []
     for n, d in g.items():
         if d["role"] in ("notdef", "empty"):
             continue
@@ -402,7 +405,14 @@ def compile_family(st):
     if entry == "ttfs":
         fonts = [B.build_font(s, module) for s in specs]
         ufos, layers = list(fonts), [None] * n
-        if st["sparse"]:
+        if st["sparse"] and "+ufo" in st["sparse"]:
+            pos = 1
+            lay = specs[0]["layers"]["S"]["glyphs"]
+            ufos.insert(pos, B.build_font({"glyphs": lay, "order": list(lay), "info": {"styleName": "Sparse"}}, module))
+            layers.insert(pos, None)
+            mids.insert(pos, "S")
+            opts["layerNames"] = layers
+        elif st["sparse"]:
             pos = 0 if st["sparse"].endswith("1st") else 1
             ufos.insert(pos, fonts[0])
             layers.insert(pos, "S")
@@ -426,8 +436,13 @@ def compile_family(st):
                 **({"share": "m0"} if m == 0 else {})} for m in range(n)]
     if st["sparse"]:
         pos = 0 if st["sparse"].endswith("1st") else 1
-        sources.insert(pos, {"spec": specs[0], "share": "m0", "layerName": "S", "location": sloc,
-                             "name": "sparse"})
+        if "+ufo" in st["sparse"]:
+            lay = specs[0]["layers"]["S"]["glyphs"]
+            sources.insert(pos, {"spec": {"glyphs": lay, "order": list(lay), "info": {"styleName": "Sparse"}},
+                                 "location": sloc, "name": "sparse"})
+        else:
+            sources.insert(pos, {"spec": specs[0], "share": "m0", "layerName": "S", "location": sloc,
+                                 "name": "sparse"})
         mids.insert(pos, "S")
     dslib = {"public.skipExportGlyphs": skip} if skip else {}
     ds = B.build_designspace(axes, sources, lib=dslib, module=module)
